@@ -128,7 +128,7 @@ def classify(prog, before: bytes, after: bytes, why):
 
 
 LAYOUTS = [{}, {"nonascii": True}, {"tabs": True}, {"nonascii": True, "tabs": True}, {"no_final_newline": True}, {"crlf": True}, {"nonascii": True, "per_test": 3},
-           {"mixed_eol": 2}, {"mixed_eol": 3, "first_crlf": True}]
+           {"mixed_eol": 2}, {"mixed_eol": 3, "first_crlf": True}, {"odd_breaks": True}, {"odd_breaks": True, "nonascii": True, "per_test": 2}]
 
 
 def gen_case(rng, i):
